@@ -70,7 +70,12 @@ class BlockNormalizer(Visitor):
                 new_statements.append(block)
         else:
             new_statements = list(self.iter_unroll_blocks(visited_statements))
-        new_block = BlockStatement(statements=new_statements)
+        # A subcircuit block stays a block: only its body is normalized.
+        new_block = BlockStatement(
+            subcircuit=obj.subcircuit,
+            iterations=obj.iterations,
+            statements=new_statements,
+        )
         return new_block
 
     def iter_chunk_blocks(self, statements):
@@ -110,7 +115,7 @@ class UnrollIterator(Visitor):
         yield obj
 
     def visit_BlockStatement(self, obj):
-        if obj.parallel:
+        if obj.parallel or obj.subcircuit:
             # This is ok in iter_unroll_blocks but would be an error
             # in iter_chunk_blocks.
             yield obj
